@@ -36,6 +36,32 @@ struct Ctx {
     metric_flop: Vec<u8>,
     /// files of 1 MiB and more: a fixed set of cuts judged by the oracle only (no model line)
     huge: bool,
+    /// files past 16 MiB: a handful of cuts past the 16 MiB mark, made by truncating the file in
+    /// place in descending order (implies `huge`)
+    giant: bool,
+}
+
+/// cuts for a file of more than 16 MiB, all but the last group past the 16 MiB mark, DESCENDING:
+/// complete file, inside the trailer, trailer missing, last row, and around the first two row
+/// boundaries past the mark: boundary -1 / +0 / +1 / +2 and mid-row; one boundary +2 below the mark
+fn giant_cuts(len: usize, row: usize) -> Vec<usize> {
+    let nrows = (len - 21) / row;
+    let mark = 16usize << 20;
+    let first = (mark - 19 + row - 1) / row;
+    let mut ks = vec![len, len - 1, len - 2, len - 2 - row, len - 2 - row + 2, len - 2 - row / 2];
+    for j in [first + 1000, first + 1, first] {
+        if j < nrows {
+            let b = 19 + j * row;
+            ks.extend([b + row / 2, b + 2, b + 1, b, b - 1]);
+        }
+    }
+    let below = 19 + (first / 2) * row;
+    ks.extend([below + 2, below]);
+    ks.retain(|k| *k <= len);
+    ks.sort();
+    ks.dedup();
+    ks.reverse();
+    ks
 }
 
 /// cuts for a file of at least 1 MiB: header, the first rows past every MiB mark (the file is still
@@ -76,6 +102,9 @@ fn huge_cuts(c: &mut Ctx, len: usize, row: usize) -> Vec<usize> {
 /// `.0` = every cut given to the real loader and judged by the oracle, `.1` = the subset also sent
 /// to the Lean model (all of them unless the file is large)
 fn cuts(c: &mut Ctx, len: usize, row: usize) -> (Vec<usize>, Vec<usize>) {
+    if c.giant {
+        return (giant_cuts(len, row), vec![]);
+    }
     if c.huge {
         return (huge_cuts(c, len, row), vec![]);
     }
@@ -150,20 +179,32 @@ fn run_cuts(
     let mut ans: Vec<String> = Vec::with_capacity(model_ks.len());
     let boundary = |k: usize| k >= 19 && k < full.len() - 1 && (k - 19) % rowsize == 0;
     let every = if full.len() <= 420 { 1 } else { 16 };
+    let full_id = if c.huge { fnv(full) } else { 0 };
+    let mut on_disk: Option<usize> = None; // giant mode: length of the intact prefix currently on disk
     for (i, &k) in ks.iter().enumerate() {
         // ambient state: this thread has just loaded a different, LONGER file of the same kind
         // (alternately under the same name and under another street's name)
-        if i % every == 0 {
+        if i % every == 0 && !c.giant {
             if decoy(i / every) {
                 c.run.count(&format!("{table} preceded by a load of a longer {} file", if (i / every) % 2 == 0 { "same-name" } else { "other-street (blueprint: same-name)" }));
             } else {
                 c.run.fail("decoy-does-not-load", table, "a complete longer file loads", "panic");
             }
         }
-        c.scr.write(name, &full[..k]);
+        if c.giant && on_disk.map(|n| n >= k).unwrap_or(false) {
+            // shorten the file in place instead of writing 17 MiB again
+            let f = std::fs::OpenOptions::new().write(true).open(c.scr.dir.join("pgcopy").join(name)).expect("open for truncation");
+            f.set_len(k as u64).expect("truncate");
+        } else {
+            c.scr.write(name, &full[..k]);
+        }
+        on_disk = Some(k);
         c.run.evaluations += 1;
         c.run.spec_checked += 1;
         let r = load();
+        if r.is_some() {
+            on_disk = None; // a loader that succeeded may have been followed by a re-save (transitions)
+        }
         let tok = match r {
             None => "fail".to_string(),
             Some(None) => "ok".to_string(),
@@ -182,8 +223,8 @@ fn run_cuts(
             }
         }
         if c.huge {
-            c.run.distinct(&(table, rows.len(), full.len(), k, fnv(full)));
-            c.run.count(&format!("HUGE {table} file of {} MiB: {cls}{} -> {}", full.len() >> 20, if k >= (1 << 20) && k < full.len() { " (>= 1 MiB left)" } else { "" }, if tok.starts_with("short") { "short" } else { &tok }));
+            c.run.distinct(&(table, rows.len(), full.len(), k, full_id));
+            c.run.count(&format!("HUGE {table} file of {} MiB: {cls}{} -> {}", full.len() >> 20, if k >= (16 << 20) && k < full.len() { " (>= 16 MiB left)" } else if k >= (1 << 20) && k < full.len() { " (>= 1 MiB left)" } else { "" }, if tok.starts_with("short") { "short" } else { &tok }));
         } else if !rows.is_empty() {
             c.run.distinct(&(table, rows, k));
         }
@@ -210,7 +251,7 @@ fn profile_case(c: &mut Ctx, rows: &[(Bucket, Edge, u32, u32)]) {
     assert!(files.len() == 1 && files[0].0 == "blueprint", "blueprint file");
     let full = files[0].1.clone();
     // a different, longer blueprint
-    let extra = any_profile_rows(&mut c.rng, orig.len() + 9);
+    let extra = any_profile_rows(&mut c.rng, if c.giant { 1 } else { orig.len() + 9 });
     build_profile(&extra).save();
     let dbytes = std::fs::read("pgcopy/blueprint").expect("decoy");
     let mut decoy = |_: usize| {
@@ -232,7 +273,7 @@ fn metric_case(c: &mut Ctx, rows: &[(u64, u32)]) {
     let street = name.strip_prefix("metric.").and_then(street_of_suffix).expect("metric street");
     let full = files[0].1.clone();
     // a different, longer metric under the same name, and the 8128-entry one (= metric.flop)
-    let n = orig.len() + 9;
+    let n = if c.giant { 1 } else { orig.len() + 9 };
     let same: Vec<(u64, u32)> = {
         let mut m = BTreeMap::new();
         while m.len() < n || [8128usize, 10296, 14196].contains(&m.len()) {
@@ -279,7 +320,7 @@ fn lookup_case(c: &mut Ctx, map: &BTreeMap<Isomorphism, Abstraction>) {
     let mut dec: Vec<(Street, String, Vec<u8>)> = vec![];
     for s in [if street == Street::Pref { Street::Flop } else { street }, other] {
         let mut m = BTreeMap::new();
-        while m.len() < orig.len() + 9 {
+        while m.len() < (if c.giant { 1 } else { orig.len() + 9 }) {
             m.insert(any_isomorphism(&mut c.rng, s), any_abstraction(&mut c.rng, None));
         }
         c.scr.clean();
@@ -331,7 +372,7 @@ fn decomp_case(c: &mut Ctx, map: BTreeMap<Abstraction, Histogram>) {
     let s0 = if river { Street::Turn } else { street };
     let s1 = if s0 == Street::Flop { Street::Turn } else { Street::Flop };
     for s in [s0, s1] {
-        let m = if c.huge { many_decomp(&mut c.rng, s, orig.len() + 9) } else { any_decomp(&mut c.rng, s, orig.len() + 9, 64) };
+        let m = if c.giant { many_decomp(&mut c.rng, s, 1) } else if c.huge { many_decomp(&mut c.rng, s, orig.len() + 9) } else { any_decomp(&mut c.rng, s, orig.len() + 9, 64) };
         std::fs::remove_file(format!("pgcopy/transitions.{s}")).ok();
         Decomp::from(m).save();
         let n = format!("transitions.{s}");
@@ -521,7 +562,7 @@ fn main() {
     quiet_panics();
     let scr = Scratch::new(&out);
     let deep = a.thorough();
-    let mut c = Ctx { run, scr, rng, deep, metric_flop: vec![], huge: false };
+    let mut c = Ctx { run, scr, rng, deep, metric_flop: vec![], huge: false, giant: false };
     {
         let mut m = BTreeMap::new();
         while m.len() < 8128 {
@@ -535,7 +576,7 @@ fn main() {
     let nsmall = if deep { 60 } else { 30 };
     let big = if deep { 3000 } else { 1100 };
     c.run.rule = format!(
-        "files written by the real save() of all four table kinds (0,1,2,3 rows, {nsmall} random tables of up to 5 rows, one of ~60 and one of ~{big} rows per kind, a lookup and a transitions table of ~4200 rows (more than 1024 / 4096 rows); transitions for preflop/flop/turn and the empty river file): for files up to 420 bytes EVERY prefix length 0..len, otherwise bytes 0..40, every row boundary, sampled offsets inside rows (first/second/last byte and random), the last 80 bytes, for all four loaders files of 1 MiB and 2 MiB (thorough: 8 MiB) cut in the header, at the first row boundaries past every MiB mark, in the middle, at 2^16 rows, at the last rows and in the trailer, each boundary with one byte before/after (oracle only, no model line), cuts around row-block multiples (256·j and 2^i rows) and I/O-buffer multiples (8 KiB, 64 KiB, 1 MiB ± 2 bytes), and the complete file — all judged by the oracle, a sample of at most ~500 per large file also sent to the model; before the cuts (every cut for small files, every 16th otherwise) the same thread loads a different, LONGER complete file of the same kind, alternately under the same name and under another street's name, so that state left behind by an earlier load is in place; plus directories holding a blueprint file and the four street lookups where each of the five files in turn is cut at every byte and the COMPOSITE loaders Encoder::load (all four lookups; its content is probed through Encoder::abstraction on games built for every stored isomorphism) and Blueprint::load (profile + encoder) are run; each prefix replaces the file and is loaded by the real load() under catch_unwind; a case = one (file, cut), non-trivial when the table has at least one row; distinct by (table content, cut)");
+        "files written by the real save() of all four table kinds (0,1,2,3 rows, {nsmall} random tables of up to 5 rows, one of ~60 and one of ~{big} rows per kind, a lookup and a transitions table of ~4200 rows (more than 1024 / 4096 rows); transitions for preflop/flop/turn and the empty river file): for files up to 420 bytes EVERY prefix length 0..len, otherwise bytes 0..40, every row boundary, sampled offsets inside rows (first/second/last byte and random), the last 80 bytes, for all four loaders files of 1 MiB and 2 MiB (thorough: 8 MiB) cut in the header, at the first row boundaries past every MiB mark, in the middle, at 2^16 rows, at the last rows and in the trailer, each boundary with one byte before/after (oracle only, no model line), and one file a little over 16 MiB per loader (thorough: also ~33 MiB; quick tier: nodebug stream only) with cuts past the 16 MiB mark at a row boundary, boundary -1/+1/+2, mid-row, the last row and the trailer, cuts around row-block multiples (256·j and 2^i rows) and I/O-buffer multiples (8 KiB, 64 KiB, 1 MiB ± 2 bytes), and the complete file — all judged by the oracle, a sample of at most ~500 per large file also sent to the model; before the cuts (every cut for small files, every 16th otherwise) the same thread loads a different, LONGER complete file of the same kind, alternately under the same name and under another street's name, so that state left behind by an earlier load is in place; plus directories holding a blueprint file and the four street lookups where each of the five files in turn is cut at every byte and the COMPOSITE loaders Encoder::load (all four lookups; its content is probed through Encoder::abstraction on games built for every stored isomorphism) and Blueprint::load (profile + encoder) are run; each prefix replaces the file and is loaded by the real load() under catch_unwind; a case = one (file, cut), non-trivial when the table has at least one row; distinct by (table content, cut)");
     c.run.exhaustive = false;
 
     for n in [0usize, 1, 2, 3] {
@@ -632,6 +673,35 @@ fn main() {
         let s = [Street::Pref, Street::Flop, Street::Turn][c.rng.below(3) as usize];
         let m = many_decomp(&mut c.rng, s, n);
         decomp_case(&mut c, m);
+    }
+    // ---------------- files a little over 16 MiB (thorough: also ~33 MiB): a handful of cuts past the
+    // 16 MiB mark for every loader.  In the quick tier only the stream that runs the production
+    // build (nodebug) does these; thorough does them in both streams.
+    if deep || is_nodebug() {
+        c.giant = true;
+        for t in if deep { vec![17 * mib, 33 * mib] } else { vec![17 * mib] } {
+            let rows = any_profile_rows(&mut c.rng, t / 66);
+            profile_case(&mut c, &rows);
+            drop(rows);
+            c.scr.clean();
+            let rows: Vec<(u64, u32)> = (0..t / 22).map(|_| (c.rng.next(), any_f32(&mut c.rng))).collect();
+            metric_case(&mut c, &rows);
+            drop(rows);
+            c.scr.clean();
+            let mut m = BTreeMap::new();
+            while m.len() < t / 26 {
+                m.insert(any_isomorphism(&mut c.rng, Street::Rive), any_abstraction(&mut c.rng, Some(Street::Rive)));
+            }
+            lookup_case(&mut c, &m);
+            drop(m);
+            c.scr.clean();
+            let m = many_decomp(&mut c.rng, Street::Flop, t / 34);
+            decomp_case(&mut c, m);
+            c.scr.clean();
+        }
+        c.giant = false;
+    } else {
+        c.run.count("files past 16 MiB: run in the nodebug stream only in the quick tier (both streams in thorough)");
     }
     c.huge = false;
     c.scr.clean();
